@@ -413,12 +413,38 @@ func runLoops(a *Analyzer, r *Results) {
 	effs, und := a.effectsOf("(*leanhelix.MainLoop).run", nil, true)
 	r.Undecided = append(r.Undecided, und...)
 	nEl, nSync := 0, 0
+	isForward := func(e *Effect, elemType string) bool {
+		// the forward to the worker: the function that sends on the worker's hand-off channel
+		if e.Kind != "call" {
+			return false
+		}
+		ci, ok := e.Instr.(ssa.CallInstruction)
+		if !ok {
+			return false
+		}
+		sc := ci.Common().StaticCallee()
+		if sc == nil {
+			return false
+		}
+		for _, b := range sc.Blocks {
+			for _, in := range b.Instrs {
+				if sel, ok := in.(*ssa.Select); ok {
+					for _, st := range sel.States {
+						if st.Dir == types.SendOnly && typeShort(st.Chan.Type().Underlying().(*types.Chan).Elem()) == elemType {
+							return true
+						}
+					}
+				}
+			}
+		}
+		return false
+	}
 	for _, e := range effs {
-		if e.Kind != "call" || len(e.Path) != 1 {
+		if e.Kind != "call" {
 			continue
 		}
-		switch e.Name {
-		case "leanhelix.sendElectionMessageNonBlocking":
+		switch {
+		case isForward(e, "interfaces.ElectionTrigger"):
 			nEl++
 			ev := a.NewEval(e, r)
 			trig := ev.Arg(2)
@@ -426,7 +452,7 @@ func runLoops(a *Analyzer, r *Results) {
 			target := Struct("state.HeightView", []string{"height", "view"}, []*Term{Field(hv, "height"), Bin("+", Field(hv, "view"), Const("1"))})
 			ev.Require("K9.election", props("C15", "C14"), "on an election trigger for (h,v) the main loop cancels everything older than (h,v+1) before forwarding, and forwards only if (h,v+1) is still issuable", "",
 				Done(Call("state.CancelOlderThan", vc, target)), ErrNil(Ext(1, Call("state.For", vc, target))))
-		case "leanhelix.sendUpdateMessageNonBlocking":
+		case isForward(e, "leanhelix.blockWithProof"):
 			nSync++
 			ev := a.NewEval(e, r)
 			msg := ev.Arg(2)
@@ -455,7 +481,7 @@ func runLoops(a *Analyzer, r *Results) {
 	r.Undecided = append(r.Undecided, und...)
 	n := 0
 	for _, e := range effs {
-		if e.Kind == "call" && len(e.Path) == 1 && strings.HasPrefix(e.Name, "dyn:field:MoveToNextLeader") {
+		if e.Kind == "call" && strings.HasPrefix(e.Name, "dyn:field:MoveToNextLeader") {
 			n++
 			ev := a.NewEval(e, r)
 			var trig *Term
